@@ -224,6 +224,8 @@ func VerifC06Func() {
 		"attribute_exists(a)", "attribute_not_exists(a)", "attribute_type(a, :t)", "begins_with(a, :v)", "contains(a, :v)",
 		"size(a) = :n", "size(a) > :n", "a BETWEEN :v AND :w", "a IN (:v, :w)", "a IN (:v)", "NOT attribute_exists(a)", "NOT contains(a, :v)",
 		"NOT a BETWEEN :v AND :w", "NOT a IN (:v, :w)", "a BETWEEN :v AND :v", "NOT begins_with(a, :v)", "attribute_exists(a) AND a BETWEEN :v AND :w",
+		"a IN (:v, :w, :v)", "size(a) >= :n", "size(a) < :n", "size(a) <> :n", "a = :v OR a = :w", "NOT (a < :v)", "contains(a, :v) OR begins_with(a, :v)",
+		"attribute_not_exists(a) OR a <> :v", "a BETWEEN :v AND :w AND NOT a = :v", "(a IN (:v)) AND attribute_exists(a)",
 	}
 	expr := texts[nd.Choice("text", len(texts))]
 	item := map[string]vspec.Val{}
@@ -321,5 +323,46 @@ func VerifC06Path() {
 		}
 	}
 	vCheckCondition(expr, item, order, vals, used, aliases, "C06-path")
+	nd.Reach("end")
+}
+
+// VerifC06Sets: equality is structural and sets compare as sets: two string sets (number sets, binary sets) with
+// symbolic members - strings of 1..2 bytes over all byte values, so members may contain blanks, commas or
+// brackets - are equal iff they have the same members, whatever the order; = and <> between them, IN, and
+// contains on a list that holds the set follow.
+func VerifC06Sets() {
+	kind := []string{"SS", "NS", "BS"}[nd.Choice("set-kind", 3)]
+	mk := func(name string) vspec.Val {
+		n := 1 + nd.Choice(name+".size", 2)
+		v := vspec.Val{Kind: kind}
+		for i := 0; i < n; i++ {
+			nm := name + "." + string(rune('0'+i))
+			switch kind {
+			case "SS":
+				v.SS = append(v.SS, nd.StringN(nm, 1+nd.Choice(nm+".len", 2)))
+			case "NS":
+				v.NS = append(v.NS, int64(nd.Int16(nm)))
+			case "BS":
+				v.BS = append(v.BS, nd.Bytes(nm, 1+nd.Choice(nm+".len", 2)))
+			}
+		}
+		// the members of a set are distinct
+		if n == 2 {
+			switch kind {
+			case "SS":
+				nd.Assume(v.SS[0] != v.SS[1])
+			case "NS":
+				nd.Assume(v.NS[0] != v.NS[1])
+			case "BS":
+				nd.Assume(string(v.BS[0]) != string(v.BS[1]))
+			}
+		}
+		return v
+	}
+	a, x := mk("a"), mk("x")
+	texts := []string{"a = :x", "a <> :x", "NOT a = :x", "a IN (:x)", "contains(l, :x)"}
+	expr := texts[nd.Choice("text", len(texts))]
+	item := map[string]vspec.Val{"a": a, "l": {Kind: "L", L: []vspec.Val{{Kind: "S", S: "e"}, a}}}
+	vCheckCondition(expr, item, []string{"a", "l"}, map[string]vspec.Val{":x": x}, []string{":x"}, nil, "C06-sets")
 	nd.Reach("end")
 }
